@@ -12,12 +12,12 @@ import (
 type Sort string
 
 const (
-	SortInt   Sort = "Int"
-	SortBool  Sort = "Bool"
-	SortSlice Sort = "Slice"
-	SortStr   Sort = "Str"
-	SortFlt   Sort = "Flt"
-	SortAsg   Sort = "(Array Int Bool)" // ghost assignment
+	SortInt    Sort = "Int"
+	SortBool   Sort = "Bool"
+	SortSlice  Sort = "Slice"
+	SortStr    Sort = "Str"
+	SortFlt    Sort = "Flt"
+	SortAsg    Sort = "(Array Int Bool)" // ghost assignment
 	SortIntArr Sort = "(Array Int Int)"
 )
 
@@ -152,12 +152,12 @@ func num(n int64) string {
 	return fmt.Sprintf("%d", n)
 }
 
-func sel(a, i string) string      { return app("select", a, i) }
-func sto(a, i, v string) string   { return app("store", a, i, v) }
-func sArr(s string) string        { return app("s-arr", s) }
-func sOff(s string) string        { return app("s-off", s) }
-func sLen(s string) string        { return app("s-len", s) }
-func sCap(s string) string        { return app("s-cap", s) }
+func sel(a, i string) string           { return app("select", a, i) }
+func sto(a, i, v string) string        { return app("store", a, i, v) }
+func sArr(s string) string             { return app("s-arr", s) }
+func sOff(s string) string             { return app("s-off", s) }
+func sLen(s string) string             { return app("s-len", s) }
+func sCap(s string) string             { return app("s-cap", s) }
 func mkSlice(a, o, l, c string) string { return app("mk-slice", a, o, l, c) }
 func add(a, b string) string {
 	if b == "0" {
@@ -217,32 +217,32 @@ type Obl struct {
 	Src       string // source text of the clause / expression
 	Pos       string
 	// results
-	Status  string // unsat | sat | unknown | timeout | error
-	Solver  string
-	TimeS   float64
-	Output  string
-	Model   string
+	Status string // unsat | sat | unknown | timeout | error
+	Solver string
+	TimeS  float64
+	Output string
+	Model  string
 }
 
 type VC struct {
-	eng     *Engine
-	header  []string // component / constant declarations (order-insensitive)
-	lines   []string // ordered definitions and assumptions
-	obls    []*Obl
-	n       int
-	comps   map[string]Sort // declared component -> sort
-	compT   map[string]types.Type
-	strs    map[string]string
-	funcKey string
-	notes   []string // unsupported / abstraction notes
-	assumed map[string]bool // trusted / opaque callees used
+	eng      *Engine
+	header   []string // component / constant declarations (order-insensitive)
+	lines    []string // ordered definitions and assumptions
+	obls     []*Obl
+	n        int
+	comps    map[string]Sort // declared component -> sort
+	compT    map[string]types.Type
+	strs     map[string]string
+	funcKey  string
+	notes    []string        // unsupported / abstraction notes
+	assumed  map[string]bool // trusted / opaque callees used
 	oblNames map[string]int
 	epochs   int
 	declared map[string]bool
 	specErrs []string
 	inSpec   int // >0 while a specification expression is evaluated: no auxiliary constants, so that
 	// the same clause evaluated twice in the same state yields syntactically identical formulas
-	inQuant  int
+	inQuant    int
 	proveCache map[string]bool
 	seenAssume map[string]int
 }
